@@ -19,7 +19,14 @@ def check_design(case):
     import hdl21 as h
     from rtc.meaning import meaning, package_meaning, compare, InvalidDesign, InvalidPackage, Unsupported as OracleUnsupported
     desc, build = case
-    top = build()
+    try:
+        top = build()
+    except AssertionError:
+        raise
+    except Exception as e:
+        # every step of every builder is a valid use of the library (slicing in range, reading a width, resizing, connecting)
+        return (f"build.raises/{desc.split('/')[0]}", f"writing the valid design {desc} raised {type(e).__name__}: {str(e)[-160:]}",
+                {"design": desc})
     try:
         want = meaning(top)           # pre-state snapshot: computed before elaboration mutates the design
     except OracleUnsupported:
@@ -354,6 +361,37 @@ def noconn_array_designs():
                     yield (f"noconn-on/{target}/{'named' if named else 'unnamed'}/w{width}/n{n}", mk(target, named, width, n))
 
 
+def array_share_designs():
+    """instance arrays fed one part per element from slices with steps +-1, +-2, 3 of a bus, from slices of slices, from
+    concatenations not aligned to the elements, and from port references: element k gets bits [k*w, (k+1)*w) OF THE
+    CONNECTION (not of what lies beneath it)"""
+    import hdl21 as h
+    conns = {
+        "even": lambda m: m.bus[::2], "odd": lambda m: m.bus[1::2], "third": lambda m: m.bus[0:10:3], "rev": lambda m: m.bus[::-1][0:4],
+        "rev-even": lambda m: m.bus[::-2], "slice-of-slice": lambda m: m.bus[1:11][::2][0:4], "offset": lambda m: m.bus[3:7],
+        "cat-unaligned": lambda m: h.Concat(m.bus[0:3], m.bus[5:8], m.bus[9:11]), "cat-strided": lambda m: h.Concat(m.bus[::4], m.bus[1:2]),
+        "from-end": lambda m: m.bus[-4:], "high-even": lambda m: m.bus[4::2],
+    }
+
+    def mk(cname, n, w):
+        def b():
+            T = h.ExternalModule(name="AProbe", port_list=[h.Inout(name="t")], desc="", domain="cc")
+            E = h.ExternalModule(name=f"AElem{w}", port_list=[h.Inout(name="p", width=w), h.Inout(name="q")], desc="", domain="cc")
+            m = h.Module(name="ArrShare")
+            m.bus = h.Signal(width=12)
+            m.c = h.Signal()
+            for k in range(12):
+                m.add(T()(t=m.bus[k]), name=f"t{k}")
+            conn = conns[cname](m)
+            conn = conn[0:n * w]
+            m.arr = n * E()(p=conn, q=m.c)
+            return m
+        return b
+    for cname in conns:
+        for n, w in ((4, 1), (2, 2), (3, 1), (2, 1)):
+            yield (f"array-share/{cname}/{n}x{w}", mk(cname, n, w))
+
+
 def name_pressure_designs():
     """designs whose declared names equal, or compose to, the names elaboration invents (the family of C05): the
     connectivity as written must survive the renaming"""
@@ -526,9 +564,9 @@ def run(ctx):
             ctx.checker_errors.append(f"array rule: only {len(obs)} obligations generated")
         ctx.discharge(obs, c_arrays.KEY + " [per-element loop body]", info)
     ctx.run_bounded(
-        "to_proto-vs-meaning", __import__("itertools").chain(design_family(ctx.tier, ctx.seed), edited_designs(), order_designs(), concat_designs(), bundle_ref_designs(), portref_slice_designs(), anon_and_pair_designs(), relative_index_designs(), noconn_array_designs()),
+        "to_proto-vs-meaning", __import__("itertools").chain(design_family(ctx.tier, ctx.seed), edited_designs(), order_designs(), concat_designs(), bundle_ref_designs(), portref_slice_designs(), anon_and_pair_designs(), relative_index_designs(), noconn_array_designs(), array_share_designs()),
         lambda c: check_design(c),
-        rule=RULE + "; plus 60 designs written in several steps (a port re-connected by each of the five operations) and 40 declaration orders of a reference chain ending on slices / concatenations of a driver's ports; every concatenation of two 1-3 bit pieces of a 6-bit bus and every three-piece cut of it in every order (285 designs); references to nested bundle members whose names recur at other levels (12); slices of a port REFERENCE for 10 kinds of referent (incl. bundle members) x every index / slice with steps +-1, +-2, also through an enclosing concatenation (~1300); end-relative indices into buses whose parts were resized after a width query, and into same-named signals of different widths in several modules of one design (~800); named and unnamed no-connects on array, pair and plain instance ports (16)", bound="depth<=3, widths<=4 (8 thorough), <=4 (6) instances per module",
+        rule=RULE + "; plus 60 designs written in several steps (a port re-connected by each of the five operations) and 40 declaration orders of a reference chain ending on slices / concatenations of a driver's ports; every concatenation of two 1-3 bit pieces of a 6-bit bus and every three-piece cut of it in every order (285 designs); references to nested bundle members whose names recur at other levels (12); slices of a port REFERENCE for 10 kinds of referent (incl. bundle members) x every index / slice with steps +-1, +-2, also through an enclosing concatenation (~1300); end-relative indices into buses whose parts were resized after a width query, and into same-named signals of different widths in several modules of one design (~800); named and unnamed no-connects on array, pair and plain instance ports (16); instance arrays fed one part per element from strided, reversed and nested slices and unaligned concatenations (44)", bound="depth<=3, widths<=4 (8 thorough), <=4 (6) instances per module",
         key_of=lambda c: c[0], nontrivial=lambda c: nontrivial(c[0]))
     ctx.run_bounded("to_proto-vs-meaning under name pressure", name_pressure_designs(), check_named,
                     rule="the designs of C05's adversarial-name family (declared names equal to invented ones in both "
@@ -543,7 +581,7 @@ def replay(payload):
     want = (payload.get("input") or {}).get("design")
     if want:
         for desc, b in list(edited_designs()) + list(order_designs()) + list(concat_designs()) + list(bundle_ref_designs()) + \
-                list(portref_slice_designs()) + list(anon_and_pair_designs()) + list(relative_index_designs()) + list(noconn_array_designs()):
+                list(portref_slice_designs()) + list(anon_and_pair_designs()) + list(relative_index_designs()) + list(noconn_array_designs()) + list(array_share_designs()):
             if desc == want:
                 r = check_design((desc, b))
                 print("replay:", r)
